@@ -55,6 +55,19 @@ SIZES = {'quick': dict(max_ents=3, max_objs=3, keylen=3, max_mods=4),
 DEFAULT_BAG_CFG = {'only': None, 'exclude': None, 'with_collections': True, 'with_lazy': False, 'related_objects': True}
 
 
+def guarded(fail, tag, desc, fn, *args, **kw):
+    """call into Pony; an exception is a reported failure of the serialisation call (never swallowed), except the
+    documented UnrepeatableReadError which the caller handles"""
+    from pony.orm.core import UnrepeatableReadError
+    try:
+        return True, fn(*args, **kw)
+    except (runner.Violation, runner.StopRun, UnrepeatableReadError, RecursionError):
+        raise
+    except Exception as e:
+        fail(tag, '%s raised %s: %s' % (desc, type(e).__name__, e))
+        return False, None
+
+
 # ------------------------------------------------------------------------------------------------
 # expectations computed from the mirror
 
@@ -104,9 +117,10 @@ def check_to_dict(env, M, plan, fail, stats):
             if wl: kw['with_lazy'] = True
             if ro: kw['related_objects'] = True
             names = select_names(M, ei, osel if oform else None, xsel if xform else None, wc, wl)
-            got = obj.to_dict(**kw)
-            stats['to_dict_calls'] = stats.get('to_dict_calls', 0) + 1
             where = '%s.to_dict(%s)' % (describe_oid(M, oid), ', '.join('%s=%r' % kv for kv in sorted(kw.items())))
+            ok, got = guarded(fail, 'to_dict_error', where, obj.to_dict, **kw)
+            stats['to_dict_calls'] = stats.get('to_dict_calls', 0) + 1
+            if not ok: continue
             if not isinstance(got, dict) or sorted(got) != sorted(names):
                 fail('to_dict_keys', '%s has keys %r, expected %r' % (where, sorted(got), sorted(names)))
                 continue
@@ -155,8 +169,12 @@ def calibrate_keys(env, M, fail, stats):
     for ei in range(len(M.meta)):
         oids = M.alive(ei)
         if not oids: continue
-        res = serialization.to_dict([env.obj(M, x) for x in oids])
+        ok, res = guarded(fail, 'bag_error', 'serialization.to_dict(all E%d objects)' % ei,
+                          serialization.to_dict, [env.obj(M, x) for x in oids])
         stats['bag_calls'] = stats.get('bag_calls', 0) + 1
+        if not ok:
+            for x in oids: enc.setdefault(x, None)
+            continue
         entries = res.get('E%d' % ei, {})
         by_raw = dict((M.rawpk(x), x) for x in oids)
         pk_names = M.pk_names(ei)
@@ -260,19 +278,21 @@ def check_bag(env, M, plan, enc, dec, fail, stats):
         return bag
 
     if custom:
-        res = make_bag().to_dict()
-        text = make_bag().to_json()
         call = 'Bag(config=%r).put(%s)' % (plan['bag_cfg'], [describe_oid(M, g) for g in given])
+        ok1, res = guarded(fail, 'bag_error', call + ' to_dict', lambda: make_bag().to_dict())
+        ok2, text = guarded(fail, 'bag_error', call + ' to_json', lambda: make_bag().to_json())
     else:
-        res = serialization.to_dict(objs if len(objs) > 1 or plan['bag_order'] % 2 else objs[0])
-        text = serialization.to_json(objs)
         call = 'serialization.to_dict(%s)' % [describe_oid(M, g) for g in given]
+        ok1, res = guarded(fail, 'bag_error', call, serialization.to_dict,
+                           objs if len(objs) > 1 or plan['bag_order'] % 2 else objs[0])
+        ok2, text = guarded(fail, 'bag_error', call + ' to_json', serialization.to_json, objs)
     stats['bag_calls'] = stats.get('bag_calls', 0) + 2
-    try:
-        parsed = json.loads(text)
-    except ValueError as e:
-        fail('to_json_parse', '%s: to_json output is not JSON (%s): %r' % (call, e, text[:300]))
-        parsed = None
+    parsed = None
+    if ok2:
+        try:
+            parsed = json.loads(text)
+        except ValueError as e:
+            fail('to_json_parse', '%s: to_json output is not JSON (%s): %r' % (call, e, text[:300]))
 
     for mode, result in (('to_dict', res), ('to_json', parsed)):
         if result is None: continue
@@ -347,14 +367,15 @@ def check_dbjson(env, M, plan, fail, stats):
     include = [getattr(env.E[ei], n) for ei in range(len(M.meta)) for n in sorted(include_names[ei])]
     objs = [env.obj(M, g) for g in given]
     if len(objs) == 1 and plan['bag_order'] % 2:
-        text = objs[0].to_json(include=include, with_schema=False)
-        exp_data = {'class': 'E%d' % given[0][0], 'pk': M.rawpk_value(given[0])}
         call = '%s.to_json(include=%s)' % (describe_oid(M, given[0]), mode)
+        ok, text = guarded(fail, 'dbjson_error', call, objs[0].to_json, include=include, with_schema=False)
+        exp_data = {'class': 'E%d' % given[0][0], 'pk': M.rawpk_value(given[0])}
     else:
-        text = env.db.to_json(objs, include=include, with_schema=False)
-        exp_data = [{'class': 'E%d' % g[0], 'pk': M.rawpk_value(g)} for g in given]
         call = 'db.to_json(%s, include=%s)' % ([describe_oid(M, g) for g in given], mode)
+        ok, text = guarded(fail, 'dbjson_error', call, env.db.to_json, objs, include=include, with_schema=False)
+        exp_data = [{'class': 'E%d' % g[0], 'pk': M.rawpk_value(g)} for g in given]
     stats['dbjson_calls'] = stats.get('dbjson_calls', 0) + 1
+    if not ok: return
     try:
         parsed = json.loads(text)
     except ValueError as e:
@@ -454,6 +475,11 @@ def dumps(M, what, roots, proto, job, fail):
         else:
             fail('pickle_error', 'pickle job %r: pickle.dumps raises RecursionError (no reference cycle)' % (job,))
         return None
+    except (runner.Violation, runner.StopRun):
+        raise
+    except Exception as e:
+        fail('pickle_error', 'pickle job %r: pickle.dumps raises %s: %s' % (job, type(e).__name__, e))
+        return None
 
 
 def do_pickle(env, M, plan, all_lazy_loaded, fail, stats):
@@ -500,6 +526,7 @@ def do_pickle(env, M, plan, all_lazy_loaded, fail, stats):
             if form == 'select_slice': q = E.select()[:]
             elif form == 'gen_slice': q = select('(x for x in E)', {'E': E}, {})[:]
             elif form == 'query': q = select('(x for x in E)', {'E': E}, {})
+            elif form == 'lazy_limit': q = select('(x for x in E)', {'E': E}, {}).limit(len(M.alive(ei)) + 3)
             else: q = select('((x, x.%s) for x in E)' % scal[0], {'E': E}, {})[:]
             rec['form'] = form
             rec['data'] = dumps(M, q, M.alive(ei), proto, job, fail)
@@ -552,7 +579,8 @@ def check_unpickled_object(env, S, u, oid, ctxinfo, fail, where):
     for n in readable_names(S, oid[0], ctxinfo['lazy'].get(oid, ()), stale, ctxinfo['r2']):
         d = S.ad[oid[0]][n]
         exp = S.get(oid, n)
-        g = getattr(u, n)
+        ok, g = guarded(fail, 'unpickle_error', '%s: reading %s.%s' % (where, describe_oid(S, oid), n), getattr, u, n)
+        if not ok: continue
         if d['kind'] == 'scalar':
             ok, expd = cm.same_value(g, exp), exp
         elif d['kind'] == 'one':
@@ -574,7 +602,8 @@ def check_unpickle(env, S, C, rec, ctxinfo, fail, stats):
     for x in sorted(ctxinfo['preloaded']):
         if x in C.objs: touch(env, C, x, ())
     where = 'pickle job %r' % (job,)
-    u = pickle.loads(rec['data'])
+    ok, u = guarded(fail, 'unpickle_error', where + ': pickle.loads', pickle.loads, rec['data'])
+    if not ok: return
     kind = job[0]
     if kind == 'obj':
         check_unpickled_object(env, S, u, rec['oids'][0], ctxinfo, fail, where)
